@@ -118,7 +118,11 @@ def make_cooler(ctx, c):
 
 
 def _key(k):
-    return k["scalar"] if "scalar" in k else slice(k["slice"][0], k["slice"][1])
+    # half of the slices spell the (only supported) step out: [a:b:1] is [a:b]
+    if "scalar" in k:
+        return k["scalar"]
+    a, b = k["slice"]
+    return slice(a, b, 1) if ((a or 0) + (b or 0)) % 2 else slice(a, b)
 
 
 def _model_table(c, table):
@@ -287,8 +291,10 @@ def check_annotate(case, ctx: Ctx):
             a, b = case["partial"]
             bins = bsel[a:b]
         px_cols_before = list(px.columns)
+        # replace=False is the documented default: left out on even-sized inputs
+        rkw = {} if (not case["replace"] and m % 2 == 0) else {"replace": case["replace"]}
         out = call(f"annotate(pixels[{m}], bins as {case['form']}, replace={case['replace']})",
-                   cooler.annotate, px, bins, replace=case["replace"])
+                   cooler.annotate, px, bins, **rkw)
         # the caller's pixel frame is an input: it keeps its columns, so that it can be annotated again
         check(list(px.columns) == px_cols_before, f"annotate(replace={case['replace']}) removed columns {sorted(set(px_cols_before) - set(px.columns))} from the caller's pixel frame")
         again = call("annotate (same pixel frame, second time)", cooler.annotate, px, bins, replace=case["replace"])
